@@ -1104,7 +1104,8 @@ def stripRule : Ty → Ty
   | t => t
 
 /-- two conjuncts of one `&` that can hold values of different JSON kinds at the same place (the place is followed
-through items, values and members of the same name; `fuel` bounds the descent) -/
+through items, values and members of the same name — a member that is a field of one class and an additional
+member of the other is typed by the field there and by the additional type here; `fuel` bounds the descent) -/
 def mixedPair : Nat → Ty → Ty → Bool
   | 0, _, _ => false
   | fuel + 1, a, b =>
@@ -1114,15 +1115,28 @@ def mixedPair : Nat → Ty → Ty → Bool
     | .tup xs _ addTy, .arr ys => ys.any fun y => (xs.any fun x => mixedPair fuel x y) || mixedPair fuel addTy y
     | .tup xs _ _, .tup ys _ _ => (xs.zip ys).any fun p => mixedPair fuel p.1 p.2
     | .map v, .map w => mixedPair fuel v w
-    | .data fs _ _ _ _, .data gs _ _ _ _ => fs.any fun f => gs.any fun g => f.name == g.name && mixedPair fuel f.ty g.ty
-    | .data fs _ _ _ _, .map w => fs.any fun f => mixedPair fuel f.ty w
-    | .map v, .data gs _ _ _ _ => gs.any fun g => mixedPair fuel v g.ty
+    | .data fs ka a _ _, .data gs kb b _ _ =>
+      -- the type each class gives a member: the field of that name, else its additional type (when it has one)
+      (fs.any fun f => gs.any fun g => f.name == g.name && mixedPair fuel f.ty g.ty) ||
+      (ka == .typed && gs.any fun g => !(fieldNames fs).contains g.name && mixedPair fuel a g.ty) ||
+      (kb == .typed && fs.any fun f => !(fieldNames gs).contains f.name && mixedPair fuel f.ty b) ||
+      (ka == .typed && kb == .typed && mixedPair fuel a b)
+    | .data fs ka a _ _, .map w => (fs.any fun f => mixedPair fuel f.ty w) || (ka == .typed && mixedPair fuel a w)
+    | .map v, .data gs kb b _ _ => (gs.any fun g => mixedPair fuel v g.ty) || (kb == .typed && mixedPair fuel v b)
     | .logic op ts, b' => op != .neg && ts.any fun t => mixedPair fuel t b'
     | a', .logic op ts => op != .neg && ts.any fun t => mixedPair fuel a' t
     | a', b' =>
       let ka := kindsOf a'
       let kb := kindsOf b'
-      !universal ka && !universal kb && ka.any fun x => kb.any fun y => x != y
+      (!universal ka && !universal kb && ka.any fun x => kb.any fun y => x != y) ||
+      -- same kind, lossy class: inside a data class (its own, lax options) the later `int` truncates what the
+      -- earlier float / Decimal condition accepted (-0.5 -> 0)
+      ((match a' with
+        | .prim .float => true
+        | .prim .decimal => true
+        | _ => false) && (match b' with
+        | .prim .int => true
+        | _ => false))
 
 def mixedConj : List Ty → Bool
   | [] => false
@@ -1179,8 +1193,9 @@ def enumConflates (base : Ty) (cons : Cons) : Bool :=
   | none => false
 
 mutual
-/-- `conj-converts-kind`: some `&` has conjuncts of different JSON kinds: a later conjunct converts what an
-earlier one accepted (True -> 1.0, [] -> {}, '{}' -> {}), so the result no longer meets the earlier one -/
+/-- `conj-converts-kind`: some `&` has conjuncts of different JSON kinds, or a float condition before an `int` one:
+a later conjunct converts what an earlier one accepted (True -> 1.0, [] -> {}, '{}' -> {}, 0 -> "0" for a member
+that is additional in one class and a field of the other, -0.5 -> 0), so the result no longer meets the earlier one -/
 def kindMix (t : Ty) : Bool :=
   match t with
   | .rule b _ => kindMix b
